@@ -259,7 +259,9 @@ def build_hv(prop, tags=""):
     sync_harness_gosum()
     os.makedirs(BUILD, exist_ok=True)
     alltags = "verif" + ("," + tags if tags else "")
-    rc, out = sh(["go", "build"] + modfile_args() + ["-tags", alltags, "-o", hv_path(prop, tags), "./cmd/" + prop.lower()],
+    # the pseudo-tag "race" builds the harness with the Go race detector (needs cgo)
+    race = ["-race"] if "race" in tags.split(",") else []
+    rc, out = sh(["go", "build"] + race + modfile_args() + ["-tags", alltags, "-o", hv_path(prop, tags), "./cmd/" + prop.lower()],
                  cwd=HARNESS, env=goenv(), timeout=1800)
     return rc == 0, out
 
